@@ -304,3 +304,71 @@ func Try(f func()) (panicked string) {
 	f()
 	return ""
 }
+
+// Exercise uses e in every way the API offers — every verb through
+// fmt, Formattable and redact, every accessor, safe details, report,
+// re-encoding, Is, UnwrapAll — and returns the first operation that
+// panicked (also when fmt swallowed the panic), or "".
+func Exercise(e error) (op string, panicked string) {
+	verbs := []string{"%v", "%s", "%+v", "%q", "%x", "%X", "%#v", "%d", "%10.3v", "%-20s", "%+q"}
+	ops := []struct {
+		name string
+		f    func() string
+	}{
+		{"Error()", func() string { return e.Error() }},
+		{"fmt", func() string {
+			var b strings.Builder
+			for _, v := range verbs {
+				b.WriteString(fmt.Sprintf(v, e))
+			}
+			return b.String()
+		}},
+		{"Formattable", func() string {
+			var b strings.Builder
+			for _, v := range verbs {
+				b.WriteString(fmt.Sprintf(v, errbase.Formattable(e)))
+			}
+			return b.String()
+		}},
+		{"redact", func() string {
+			var b strings.Builder
+			for _, v := range verbs {
+				s := redact.Sprintf(v, e)
+				b.WriteString(string(s))
+				b.WriteString(string(s.Redact()))
+				b.WriteString(s.StripMarkers())
+			}
+			return b.String()
+		}},
+		{"accessors", func() string { return fmt.Sprint(Snapshot(e, Opt{})) }},
+		{"GetAllSafeDetails", func() string { return fmt.Sprint(errors.GetAllSafeDetails(e)) }},
+		{"BuildSentryReport", func() string {
+			ev, ex := errors.BuildSentryReport(e)
+			b, _ := json.Marshal(ev)
+			return string(b) + fmt.Sprint(ex)
+		}},
+		{"EncodeError+Marshal", func() string { return string(wire.Encode(e)) }},
+		{"re-decode", func() string { return wire.Decode(wire.Encode(e)).Error() }},
+		{"Is(e,e)", func() string { return fmt.Sprint(errors.Is(e, e), errors.IsAny(e, e)) }},
+		{"UnwrapAll", func() string { return fmt.Sprintf("%T", errors.UnwrapAll(e)) }},
+		{"HasType/If", func() string {
+			_, ok := errors.If(e, func(error) (interface{}, bool) { return nil, false })
+			return fmt.Sprint(errors.HasType(e, e), ok)
+		}},
+	}
+	for _, o := range ops {
+		var out string
+		if p := Try(func() { out = o.f() }); p != "" {
+			return o.name, p
+		}
+		if HasFmtPanic(out) {
+			i := strings.Index(out, "PANIC=")
+			end := i + 160
+			if end > len(out) {
+				end = len(out)
+			}
+			return o.name, "panic caught by fmt: " + out[i:end]
+		}
+	}
+	return "", ""
+}
